@@ -519,7 +519,7 @@ Proof.
   unfold aff_mul, mat_apply at 1 2.
   set (f := m_at r_sc a). set (g := m_at r_sc b).
   unfold mat_apply. fold f. fold g. clearbody f g.
-  unfold m_at. cbn [nth Nat.mul Nat.add Nat.eqb sc_zero sc_add sc_mul r_sc px py pz fst snd].
+  unfold m_at. cbn [nth Nat.mul Nat.add Nat.eqb sc_zero sc_one sc_add sc_mul r_sc px py pz fst snd].
   apply pt_ext; ring.
 Qed.
 
